@@ -143,8 +143,9 @@ def monitor (op obs : String) : String :=
     | _, _, _, _, _, _ => "FAIL bad-op"
   | ["exec", _n, _self, _excl] =>
     match field o "r1" with
-    | some "reached" => "ok"
-    | some r => "FAIL Execute-did-not-disqualify-exactly-the-excluded-members:" ++ r
+    | some r =>
+      if holdsExec (r == "reached") then "ok"
+      else "FAIL Execute-did-not-disqualify-exactly-the-excluded-members:" ++ r
     | none => "FAIL unparsable-observation"
   | ["pub", n, self, dq, seats, sess, msgs] =>
     match n.toNat?, self.toNat?, parseNats dq, parseNats seats, sess.toNat?, parsePMsgs msgs,
@@ -159,12 +160,15 @@ def monitor (op obs : String) : String :=
     | some n, some t, some excl, some okm, some agree, some mis, some ks, some exjoin =>
       let op := operatingOthers n excl
       let expMis := showList ((List.range' 1 n).filter (fun m => excl.contains m))
-      if exjoin ≠ "-" then "FAIL excluded-member-joined"
+      let obsv : RunObs := ⟨okm, agree == "1", (if mis = "differ" || mis = "none" then none else parseNats mis),
+        ks == "1", (parseNats exjoin).getD [0]⟩
+      if holdsRun n t excl obsv then "ok"
+      else if exjoin ≠ "-" then "FAIL excluded-member-joined"
       else if agree ≠ "1" && okm.length > 0 then "FAIL wallet-keys-differ"
       else if okm.length > 0 && mis ≠ expMis then "FAIL misbehaved-lists"
       else if ks ≠ "1" then "FAIL party-keys-stored"
       else if t ≤ op.length && 2 ≤ op.length && okm != op then "FAIL operating-member-did-not-complete"
-      else "ok"
+      else "FAIL run-monitor"
     | _, _, _, _, _, _, _, _ => "FAIL unparsable-observation"
   | _ => "FAIL bad-op"
 
